@@ -2,6 +2,8 @@ open Datatypes
 
 val nth_error : 'a1 list -> nat -> 'a1 option
 
+val rev : 'a1 list -> 'a1 list
+
 val map : ('a1 -> 'a2) -> 'a1 list -> 'a2 list
 
 val flat_map : ('a1 -> 'a2 list) -> 'a1 list -> 'a2 list
@@ -11,5 +13,9 @@ val fold_left : ('a1 -> 'a2 -> 'a1) -> 'a2 list -> 'a1 -> 'a1
 val existsb : ('a1 -> bool) -> 'a1 list -> bool
 
 val forallb : ('a1 -> bool) -> 'a1 list -> bool
+
+val filter : ('a1 -> bool) -> 'a1 list -> 'a1 list
+
+val seq : nat -> nat -> nat list
 
 val repeat : 'a1 -> nat -> 'a1 list
